@@ -161,12 +161,28 @@ def r2_to_r5(prog, ev, rep, conv):
     root = prog.bodies[conv]["thir"]["root"]
     # the match over segments
     seg_match = None
-    for x in T.walk(root):
-        if x.get("k") == "Match" and re.fullmatch(r"&?(?:'\w+ )?crate::parser::model::Segment", T.strip(x["scrut"]).get("ty") or ""):
-            seg_match = x
-            break
+    step_fn = conv
+
+    def find_match(r):
+        for x in T.walk(r):
+            if x.get("k") == "Match" and re.fullmatch(r"&?(?:'\w+ )?crate::parser::model::Segment", T.strip(x["scrut"]).get("ty") or ""):
+                return x
+        return None
+    seg_match = find_match(root)
+    if seg_match is None:
+        # the per-segment work may live in a helper that is called or mapped over the segments
+        reach, _ = prog.reach([conv], stop=lambda p_: p_.startswith("crate::parser::"))
+        for p_ in sorted(reach):
+            if p_ != conv and not p_.startswith("crate::parser::") and p_ in prog.bodies:
+                m_ = find_match(prog.bodies[p_]["thir"]["root"])
+                if m_ is not None:
+                    seg_match, step_fn = m_, prog.owner_fn(p_)
+                    break
     if seg_match is None:
         rep.unrecognised("C09-R2", "%s|dispatch" % conv, where, "no match over a Segment found"); return
+    if step_fn != conv:
+        t2, trace2, _c2 = ev.traced(step_fn)
+        trace = list(trace) + list(trace2) + [x for x in subterms(t2) if x.k == "call" and x.a[0] == "<format>"]
     arms = seg_match["arms"]
     sel_variants = dict(tables.variants_of(prog, M + "Selector"))
     accepted = {}
@@ -177,7 +193,9 @@ def r2_to_r5(prog, ev, rep, conv):
         if len(sel) != 1 or sel[0][1] != "definite":
             rep.unrecognised("C09-R2", key, where, "no unique arm"); continue
         body = arms[sel[0][0]]["body"]
-        is_err = any(y.get("k") == "Return" for y in T.walk(body)) and any(y.get("k") == "Adt" and y.get("variant") == "Err" for y in T.walk(body))
+        has_err = any(y.get("k") == "Adt" and y.get("variant") == "Err" for y in T.walk(body))
+        has_ok = any(y.get("k") == "Adt" and y.get("variant") == "Ok" for y in T.walk(body))
+        is_err = has_err and (any(y.get("k") == "Return" for y in T.walk(body)) or not has_ok)
         if vn in ("Name", "Index"):
             rep.check(not is_err, "C09-R2", key, where, "converted", "%s steps are rejected" % vn)
             accepted[vn] = arms[sel[0][0]]
@@ -191,8 +209,12 @@ def r2_to_r5(prog, ev, rep, conv):
     # formats written per accepted arm (from the trace: push_str(format(..)))
     fmts = {}
     for c in trace:
+        f = None
         if c.k == "call" and c.a[0].endswith("String::push_str") and len(c.a) == 3 and c.a[2].k == "call" and c.a[2].a[0] == "<format>":
             f = c.a[2]
+        elif c.k == "call" and c.a[0] == "<format>" and step_fn != conv:
+            f = c           # the step function returns the formatted token instead of appending it
+        if f is not None:
             arg = f.a[2].a[1] if len(f.a) > 2 and f.a[2].k == "call" and f.a[2].a[0].startswith("<fmtarg") else None
             kind = None
             for y in subterms(arg) if arg is not None else []:
